@@ -90,19 +90,6 @@ theorem mulAmp_zero (s : Fmt) (v : Int) (hv : s.inRange v) (n : Bool) :
   obtain ⟨b, hb⟩ := this
   rw [hb]; exact C02.f2i_zero' _ _ _
 
-theorem mul_one_rep (F : Fmt2) (n : Bool) (q : ℚ) (hq : q = 0 ∨ (0 < q ∧ onGrid F q ∧ q < pow2 (F.emax + 1))) :
-    mul F (.fin n q) (.fin false 1) = .fin n q := by
-  rcases hq with h0 | ⟨hpos, hg, hlt⟩
-  · subst h0; cases n <;> simp [mul, round_zero]
-  · have hid := rv_id F hg
-    cases n with
-    | false =>
-      simp only [mul, mul_one, Bool.false_bne, Bool.false_eq_true, if_false]
-      rw [round_of_pos F false hpos (by rw [hid]; exact hlt), hid]
-    | true =>
-      simp only [mul, mul_one, Bool.true_bne, Bool.not_false, if_true]
-      rw [round_of_neg F true (by linarith) (by rw [neg_neg, hid]; exact hlt), neg_neg, hid]
-
 /-- scaling by 1.0 returns the same sample exactly whenever the format fits its float
     companion's mantissa (all formats except the 32- and 64-bit ones, see `fits_iff`) -/
 theorem mulAmp_one (s : Fmt) (hfit : s.bits ≤ (floatOf s).fmt.prec) (v : Int) (hv : s.inRange v) :
@@ -125,6 +112,65 @@ theorem mulAmp_one (s : Fmt) (hfit : s.bits ≤ (floatOf s).fmt.prec) (v : Int) 
         rw [← pow2_zero]; apply pow2_lt; cases s <;> simp [floatOf, FFmt.fmt, Dasp.f32, Dasp.f64]
       linarith
   rw [mul_one_rep _ n q hrep]; exact hinv
+
+/-- scaling by 1.0 on the formats that do NOT fit their float companion's mantissa (i32/u32 in f32,
+    i64/u64 in f64): the result is in range and within the float precision, `2^(bits − prec)`, of the
+    sample (2^8 for the 32-bit formats, 2^11 for the 64-bit ones) — the top values saturate -/
+theorem mulAmp_one_approx (s : Fmt) (hbig : s.bits = 32 ∨ s.bits = 64) (v : Int) (hv : s.inRange v) :
+    s.inRange (mulAmpI s v (.fin false 1)) ∧
+    |mulAmpI s v (.fin false 1) - v| ≤ 2 ^ (s.bits - (floatOf s).fmt.prec) := by
+  have hi := C02.i2f_spec s (floatOf s) v hv
+  cases s <;> simp at hbig
+  · -- i32 via f32
+    obtain ⟨r, hr, h1, h2, h3⟩ := i2f_mul1_f2i_near Dasp.f32 (by norm_num [Dasp.f32]) v 31 .i32
+      (by norm_num [Dasp.f32]) (by norm_num [Dasp.f32]) (by norm_num [Dasp.f32]) (by norm_num [Dasp.f32])
+      (by norm_num) (by norm_num) (by simp [Fmt.inRange] at hv; omega) (by simp [Fmt.inRange] at hv; omega)
+    have he : mulAmpI .i32 v (.fin false 1) = r := by
+      simp only [mulAmpI, toFloatI, floatOf, f2iTable, f32_to_i32, FConv.f2iVal, val, FFmt.fmt] at hi ⊢
+      rw [hi]; simpa using hr
+    rw [he]; simp [Fmt.inRange, floatOf, FFmt.fmt, Dasp.f32] at h1 h2 h3 ⊢
+    exact ⟨⟨h1, h2⟩, h3⟩
+  · -- i64 via f64
+    obtain ⟨r, hr, h1, h2, h3⟩ := i2f_mul1_f2i_near Dasp.f64 (by norm_num [Dasp.f64]) v 63 .i64
+      (by norm_num [Dasp.f64]) (by norm_num [Dasp.f64]) (by norm_num [Dasp.f64]) (by norm_num [Dasp.f64])
+      (by norm_num) (by norm_num) (by simp [Fmt.inRange] at hv; omega) (by simp [Fmt.inRange] at hv; omega)
+    have he : mulAmpI .i64 v (.fin false 1) = r := by
+      simp only [mulAmpI, toFloatI, floatOf, f2iTable, f64_to_i64, FConv.f2iVal, val, FFmt.fmt] at hi ⊢
+      rw [hi]; simpa using hr
+    rw [he]; simp [Fmt.inRange, floatOf, FFmt.fmt, Dasp.f64] at h1 h2 h3 ⊢
+    exact ⟨⟨h1, h2⟩, h3⟩
+  · -- u32 via i32 and f32
+    obtain ⟨r, hr, h1, h2, h3⟩ := i2f_mul1_f2i_near Dasp.f32 (by norm_num [Dasp.f32]) (v - 2147483648) 31 .i32
+      (by norm_num [Dasp.f32]) (by norm_num [Dasp.f32]) (by norm_num [Dasp.f32]) (by norm_num [Dasp.f32])
+      (by norm_num) (by norm_num) (by simp [Fmt.inRange] at hv; omega) (by simp [Fmt.inRange] at hv; omega)
+    have hrr : Fmt.inRange .i32 r := by simp [Fmt.inRange] at h1 h2 ⊢; exact ⟨h1, h2⟩
+    have hc := (i32_to_u32_spec r hrr).2.2
+    have he : mulAmpI .u32 v (.fin false 1) = r + 2147483648 := by
+      simp only [mulAmpI, toFloatI, floatOf, f2iTable, f32_to_u32, f32_to_i32, FConv.f2iVal, val, FFmt.fmt] at hi ⊢
+      rw [hi]
+      have : toInt ITy.i32 (mul Dasp.f32 (mul Dasp.f32 (specI2F Dasp.f32 (v - Fmt.u32.off) (Fmt.u32.bits - 1)) (FP.fin false 1)) (FP.fin false (2 ^ 31))) = r := by
+        simpa using hr
+      rw [this, hc]; simp [specConv]
+    rw [he]; simp [Fmt.inRange, floatOf, FFmt.fmt, Dasp.f32] at h1 h2 h3 ⊢
+    refine ⟨⟨by omega, by omega⟩, ?_⟩
+    have e : r + 2147483648 - v = r - (v - 2147483648) := by ring
+    rw [e]; exact h3
+  · -- u64 via i64 and f64
+    obtain ⟨r, hr, h1, h2, h3⟩ := i2f_mul1_f2i_near Dasp.f64 (by norm_num [Dasp.f64]) (v - 9223372036854775808) 63 .i64
+      (by norm_num [Dasp.f64]) (by norm_num [Dasp.f64]) (by norm_num [Dasp.f64]) (by norm_num [Dasp.f64])
+      (by norm_num) (by norm_num) (by simp [Fmt.inRange] at hv; omega) (by simp [Fmt.inRange] at hv; omega)
+    have hrr : Fmt.inRange .i64 r := by simp [Fmt.inRange] at h1 h2 ⊢; exact ⟨h1, h2⟩
+    have hc := (i64_to_u64_spec r hrr).2.2
+    have he : mulAmpI .u64 v (.fin false 1) = r + 9223372036854775808 := by
+      simp only [mulAmpI, toFloatI, floatOf, f2iTable, f64_to_u64, f64_to_i64, FConv.f2iVal, val, FFmt.fmt] at hi ⊢
+      rw [hi]
+      have : toInt ITy.i64 (mul Dasp.f64 (mul Dasp.f64 (specI2F Dasp.f64 (v - Fmt.u64.off) (Fmt.u64.bits - 1)) (FP.fin false 1)) (FP.fin false (2 ^ 63))) = r := by
+        simpa using hr
+      rw [this, hc]; simp [specConv]
+    rw [he]; simp [Fmt.inRange, floatOf, FFmt.fmt, Dasp.f64] at h1 h2 h3 ⊢
+    refine ⟨⟨by omega, by omega⟩, ?_⟩
+    have e : r + 9223372036854775808 - v = r - (v - 9223372036854775808) := by ring
+    rw [e]; exact h3
 
 /-- scale equals native multiplication on the normalised-float conversion, converted back
     (unfolding of the model, stated so the composition is visible) -/
